@@ -48,5 +48,5 @@ pub fn with_strict<T>(f: impl FnOnce() -> T) -> T {
 }
 
 pub fn strict() -> bool {
-  STRICT.with(|s| s.get())
+  STRICT.with(|s| s.get()) || std::env::var_os("VERIF_STRICT").is_some()
 }
